@@ -209,3 +209,24 @@ Theorem C16_translated_make_config_is_model :
   = if bytes_eqb arg t_ENV then env_load cores env else file_load cores (fs arg).
 Proof. exact gen_make_config_model. Qed.
 Print Assumptions C16_translated_make_config_is_model.
+
+(* ---- main of the server binary AS TRANSLATED FROM THE SOURCE on this run: the command line, make_config,
+   is_valid_config (here any predicate `valid` on the loaded configuration), the spawn loop, the joins and
+   every process::exit. Exit status 1 happens exactly for a refused start — wrong argument count, a loader
+   error, a configuration the validator rejects — and then no thread has been spawned. ---- *)
+Require Import RV.Proofs.CodeMain.
+
+Theorem C16_translated_main_is_spec :
+  forall argc arg cores env fs valid bind_ok joins_ok,
+  gen_server_main argc arg cores env fs valid bind_ok joins_ok [] = main_spec argc arg cores env fs valid bind_ok joins_ok.
+Proof. exact gen_server_main_model. Qed.
+Print Assumptions C16_translated_main_is_spec.
+
+Theorem C16_translated_refused_start_is_exit_1 :
+  forall argc arg cores env fs valid bind_ok joins_ok ths,
+  main_spec argc arg cores env fs valid bind_ok joins_ok = Err (ExitWith 1 ths) ->
+  ths = [] /\ (argc <> 2%N
+               \/ (exists e, (if bytes_eqb arg t_ENV then env_load cores env else file_load cores (fs arg)) = Err e)
+               \/ (exists c, (if bytes_eqb arg t_ENV then env_load cores env else file_load cores (fs arg)) = Ok c /\ valid c = false)).
+Proof. exact main_exit_1. Qed.
+Print Assumptions C16_translated_refused_start_is_exit_1.
